@@ -11,8 +11,8 @@ from hypothesis import strategies as st
 from vp import gen, refop
 from vp.framework import HarnessError, Violation
 
-RULE = ("Grid (2..12 cells per direction plus 16/24/32 in one direction, "
-        "<=800 cells, any parity, uniform/stretched/random), model (4 "
+RULE = ("Grid (2..12 cells per direction, also 16/24/32; <=800 cells, "
+        "any parity, uniform/stretched/random), model (4 "
         "anisotropy cases, <=3 decades, optional mu_r/epsilon_r; given as "
         "full/Fortran/flat/scalar arrays or with a map instance; direct or "
         "via copy/dict/pickle/deepcopy), frequency or Laplace s with drawn "
@@ -97,7 +97,7 @@ def config_spec():
     })
 
 
-def new_keys(thorough=False):
+def new_keys():
     """Spec keys added after the first findings were recorded; every one is
     read with spec.get(key, <value reproducing the old behaviour>)."""
     return {
@@ -714,7 +714,8 @@ def large_strategy():
         'cfg': config_spec(),
         'lgamp': st.sampled_from([0, 0, -12, 6]),
         'seed': gen.SEED,
-    }).filter(lambda s: 2000 < np.prod(s['grid']['n']) <= 20000)
+        **new_keys(),
+    }).filter(lambda s: 2000 < np.prod(s['grid']['n']) <= 20000).map(_tame)
 
 
 SUBS = {'solve': case_solve, 'large': case_solve}
